@@ -193,7 +193,8 @@ theorem cloneWith_complete (names : List String) (hall : ∀ s ∈ Cfg.dataSlots
     (hc : TypeOK c) : Cfg.cloneWith names c [] = .ok c := by
   unfold Cfg.cloneWith
   rw [cloneSlots_complete names hall c (typeOK_get hc)]
-  simp only [mergeKVs_nil_right, view_eq hc]
+  have hcp : mergeKVs [] c.defaults = .ok c.defaults := copyDict_id (typeOK_get hc .defaults)
+  simp only [hcp, view_eq hc]
 
 /-- simplest non-trivial type-consistent configurations (used for non-vacuity examples) -/
 theorem typeOK_simple {dflt m dl : KVs} (hd : WF dflt) (hm : WF m) (hdel : WF dl) (hc : Compat dflt m) :
